@@ -19,7 +19,7 @@ from ..core import guarded, HarnessError
 ID = "C12"
 TECHNIQUE = ("Hypothesis-generated polarisations, dipoles, dimers/trimers with two-exciton states against an exact SO(3) "
              "quadrature for the pathway prefactors, metamorphic relations of the 2D response and additivity for J = 0")
-LEVEL = ("For generated dimers and trimers built with two-exciton states (couplings incl. 0, per-molecule widths, "
+LEVEL = ("(The three parts of the response are read in a generated order, possibly repeatedly: reading must not change them.) For generated dimers and trimers built with two-exciton states (couplings incl. 0, per-molecule widths, "
          "Gaussian and Lorentzian line shapes, waiting times on the grid of a zero-rate evolution superoperator) and "
          "generated polarisation four-tuples: the prefactor of every Liouville pathway returned by the library equals "
          "sign x <prod_k e_k.(R d_k)>_SO(3) x rho0 x evolution factor with the average from an exact quadrature "
